@@ -1,8 +1,27 @@
 #!/bin/bash
-# usage: seed_queue.sh "C01 A" "C01 B" ...   (isolated copy)
+# usage: seed_queue.sh [--all] "C01 A" "C01 B" ...
+# Evaluates seeded changes against the isolated copy (/tmp/evalrepo + /tmp/evalverif, see eval_copy.sh).
+# By default each change is run against the check of its own property + C01 + C02 + the checks of its family;
+# --all runs every registered check.
 export EVAL_REPO=/tmp/evalrepo EVAL_VERIF=/tmp/evalverif
+ALL=0; if [ "${1:-}" = "--all" ]; then ALL=1; shift; fi
+family() {
+  case "$1" in
+    C04|C05) echo "C04 C05";;
+    C06|C07|C08|C09|C10|C11|C12|C14|C29|C30) echo "C06 C07 C08 C09 C10 C11 C12 C14 C29 C30";;
+    C15|C21|C22) echo "C15 C21 C22";;
+    C16|C17|C18|C19|C20) echo "C16 C17 C18 C19 C20 C22";;
+    C25|C26) echo "C25 C26";;
+    C27|C28) echo "C27 C28";;
+    *) echo "$1";;
+  esac
+}
 for item in "$@"; do
   set -- $item
   echo "=== $1 $2 $(date +%H:%M:%S)"
-  /verif/tools/seed_eval.sh $1 $2 2>&1 | tail -3
+  if [ $ALL = 1 ]; then /verif/tools/seed_eval.sh $1 $2 2>&1 | tail -3
+  else
+    CH=$(echo "$1 C01 C02 $(family $1)" | tr ' ' '\n' | awk '!s[$0]++' | tr '\n' ' ')
+    /verif/tools/seed_eval.sh $1 $2 $CH 2>&1 | tail -3
+  fi
 done
